@@ -455,3 +455,14 @@ def c08(ctx):
         return
     # crashes at every file-system operation of scenarios that contain a snapshot install
     ctx.gv("crash-points", "Trace_Table", ["disk", "--mode", "crash", "--seed", str(seed() + 5), "--n", str(15 if q else 300)])
+
+
+@check("C10")
+def c10(ctx):
+    ctx.assumptions += ["Raft safety of dragonboat is assumed (Group.tla is the contract regatta relies on); the three engines run in one process on loopback TCP with in-memory file systems",
+                        "one replica is made to lag by parking its FSM.Update in the verif hook for 5-45 ms at a time; reads are issued against it meanwhile",
+                        "call order is taken from one process-wide sequence counter read at invocation and at return"]
+    q = ctx.quick
+    ctx.design("Group", "MC_Group_quick.cfg" if q else "MC_Group_thorough.cfg")
+    n, ops = (8, 30) if q else (120, 60)
+    ctx.gv("three-node-histories", "Trace_Group", ["group", "--seed", str(seed()), "--n", str(n), "--ops", str(ops)], racy=True)
